@@ -186,7 +186,7 @@ func genHist(r *Rng, tier string, n int, emit func(string)) {
 				if cr.Chance(20) {
 					ops = append(ops, "T,")
 				} else {
-					ops = append(ops, "T,"+Pick(cr, methods))
+					ops = append(ops, "T,"+genTruncMethods(cr, methods))
 				}
 			default:
 				// delete then re-insert
